@@ -260,7 +260,7 @@ def stepLine (s : DState) (line : String) : DState × String :=
       let v := if who == "obs" then g.asObserver else g.asPlayer (who.toNat?.getD 0)
       (s, gameStr "view" v "none")
     | none => (s, "bad")
-  | ["hop"] =>
+  | "hop" :: _ =>   -- "hop", "hop json", "hop load": the model's save / restore is the same function for all three
     match s.game with
     | some g => ({ s with game := some g.hop }, "ok")
     | none => (s, "bad")
